@@ -1,4 +1,5 @@
-import PtVerif.Proofs.Neutron
+import PtVerif.Proofs.NeutronConv
+import PtVerif.Proofs.NeutronInvariance
 /-!
 # C04 — neutron results obey density, cell-size, grouping, unit and vector invariances
 
